@@ -25,12 +25,14 @@ type property struct {
 	rules func(*Ctx)
 	// deep rules need the whole-program SSA/VTA graph; run in the thorough tier only.
 	deep func(*Ctx)
+	// whole: the quick rules themselves need the whole-program load (SSA + VTA call graph).
+	whole bool
 }
 
 var registry = map[string]*property{}
 
 func register(id string, rules func(*Ctx), deep func(*Ctx)) {
-	registry[id] = &property{id, rules, deep}
+	registry[id] = &property{id: id, rules: rules, deep: deep}
 }
 
 func main() {
@@ -81,7 +83,13 @@ func main() {
 	}
 	start := time.Now()
 	before := repoStatus(*repo)
-	p, err := Load(*repo, *tier == "thorough")
+	whole := *tier == "thorough"
+	for _, id := range ids {
+		if pr := registry[id]; pr != nil && pr.whole {
+			whole = true
+		}
+	}
+	p, err := Load(*repo, whole)
 	if err != nil {
 		fmt.Printf("load failure: %v\n", err)
 		for _, id := range ids {
